@@ -609,6 +609,18 @@ impl<D: DependencyProvider, RT: AsyncRuntime> Solver<D, RT> {
             ))
         } else {
             self.state.decision_tracker.undo_until(starting_level);
+
+            // A negative assertion that was added while trying this soft requirement (e.g. the
+            // exclusion of a solvable of a package that was only now requested through a version
+            // set) can contradict a solvable that was installed for an earlier soft requirement.
+            // That decision is kept, just like a `Lock` clause does not undo it, so the assertion
+            // can never be honoured: drop it, otherwise it conflicts with every later soft
+            // requirement as well.
+            let decision_tracker = &self.state.decision_tracker;
+            self.state
+                .negative_assertions
+                .retain(|&(variable, _)| decision_tracker.assigned_value(variable) != Some(true));
+
             self.state
                 .decision_tracker
                 .try_add_decision(
